@@ -12,6 +12,7 @@ package props
 import (
 	"context"
 	"fmt"
+	"math"
 	"math/rand"
 	"sort"
 
@@ -35,7 +36,7 @@ func (s *scriptedSource) Int63() int64    { return s.v << 32 }
 func (s *scriptedSource) Seed(seed int64) {}
 
 func c06Draw(c *lab.Ctx) {
-	c.Rule("route rules with 1..8 weighted clusters (weights incl. 0, 1, dominant, totals power of two or not, total <= 4096); the whole draw space [0,total) is enumerated K times per configuration (map iteration order changes per call); distinct = (weight vector, draw, answer)")
+	c.Rule("route rules with 1..8 weighted clusters (weights incl. 0, 1, dominant, totals power of two or not, total <= 4096); the whole draw space [0,total) is enumerated K..60 times per configuration (map iteration order changes per call); per draw the answer must be explainable by some storage order, and per cluster the number of selections over all sweeps must lie within a 1e-12 Bernstein bound of sweeps*weight; distinct = (weight vector, draw, answer)")
 	rng := c.Rand("draw")
 	nCfg := c.Pick(400, 3000)
 	K := c.Pick(6, 16)
@@ -54,7 +55,7 @@ func c06Draw(c *lab.Ctx) {
 			}
 		}
 	}
-	zeroSeen, answers := 0, 0
+	zeroSeen, answers, judgedCounts := 0, 0, 0
 	for ci := 0; ci < nCfg; ci++ {
 		n := 1 + rng.Intn(8)
 		ws := make([]uint32, n)
@@ -130,7 +131,28 @@ func c06Draw(c *lab.Ctx) {
 			}
 			sums[name] = set
 		}
-		for k := 0; k < K; k++ {
+		// Counting oracle. The storage order may change from call to call, so the number of draws of one sweep that select a
+		// cluster is a random variable - with mean exactly weight(c) if the selection is weight-proportional under every order.
+		// Over KK sweeps the count is a sum of independent [0,1] variables with mean KK*w and variance <= KK*w; a count farther
+		// than t = L/3 + sqrt((L/3)^2 + 2*L*KK*w) from the mean (Bernstein, L = ln(2e12)) has probability < 1e-12 in correct code.
+		minPos := uint32(0)
+		for _, w := range ws {
+			if w > 0 && (minPos == 0 || w < minPos) {
+				minPos = w
+			}
+		}
+		KK := K
+		if need := int(200/minPos) + 1; need > KK {
+			KK = need
+		}
+		if KK > 60 {
+			KK = 60
+		}
+		for KK > K && KK*int(total) > 120000 {
+			KK--
+		}
+		counts := map[string]int{}
+		for k := 0; k < KK; k++ {
 			// a fresh rule instance per repetition
 			rule, err := router.NewRouteRuleImplBase(nil, &v2.Router{RouterConfig: v2.RouterConfig{
 				Match: v2.RouterMatch{Prefix: "/"},
@@ -146,6 +168,7 @@ func c06Draw(c *lab.Ctx) {
 				got := rule.ClusterName(context.Background())
 				c.Eval(1)
 				answers++
+				counts[got]++
 				w, known := wOf[got]
 				if !known {
 					c.Violation("answer-is-a-configured-cluster", "C06/draw/unknown-cluster",
@@ -178,11 +201,26 @@ func c06Draw(c *lab.Ctx) {
 				}
 			}
 		}
+		const L = 28.3
+		for name, w := range wOf {
+			mean := float64(KK) * float64(w)
+			t := L/3 + math.Sqrt((L/3)*(L/3)+2*L*mean)
+			if w == 0 || mean <= t {
+				continue // too few expected selections to judge by counting
+			}
+			judgedCounts++
+			if d := math.Abs(float64(counts[name]) - mean); d > t {
+				c.Violation("exactly-weight-draws-per-cluster", "C06/draw/count-not-weight-proportional",
+					fmt.Sprintf("weights %v (total %d, configured order %v): over %d sweeps of the whole draw space cluster %s (weight %d) was selected %d times, expected %d (+-%.0f at 1e-12)", ws, total, perm, KK, name, w, counts[name], int(mean), t),
+					map[string]interface{}{"case": ci, "weights": ws, "order": perm, "sweeps": KK, "cluster": name, "count": counts[name]})
+			}
+		}
 		if ci%97 == 0 {
-			c.Sample(map[string]interface{}{"weights": ws, "total": total, "repetitions": K})
+			c.Sample(map[string]interface{}{"weights": ws, "total": total, "repetitions": KK})
 		}
 	}
 	c.Count("answers", int64(answers))
+	c.Count("clusters-judged-by-count", int64(judgedCounts))
 	c.Exhaustive(true)
 	c.Require("draws evaluated", answers > 1000, fmt.Sprint(answers))
 }
